@@ -5,11 +5,19 @@ package main
 // through the real sign flow (token → Authorize → Sign). Only issued / refused is observable.
 
 import (
+	"context"
+	"crypto/ecdsa"
+	"crypto/elliptic"
+	"crypto/rand"
 	"errors"
 	"fmt"
+	"net/http"
 	"os"
 	"strings"
-	"net/http"
+
+	"golang.org/x/crypto/ssh"
+
+	"github.com/smallstep/certificates/authority"
 
 	"github.com/smallstep/certificates/authority/config"
 	authpolicy "github.com/smallstep/certificates/authority/policy"
@@ -19,7 +27,8 @@ import (
 	"verif/harness/fixture"
 )
 
-var e2eCA *fixture.CA // key material reused across cases (fixture.Opts.From)
+var e2eCA *fixture.CA    // key material reused across cases (fixture.Opts.From)
+var e2eSSHCA *fixture.CA // the same for the cases that need SSH signers
 
 func nameOpts(r Rules) *authpolicy.X509NameOptions {
 	return &authpolicy.X509NameOptions{CommonNames: r.CN, DNSDomains: r.DNS, IPRanges: r.IP, EmailAddresses: r.Email, URIDomains: r.URI}
@@ -33,6 +42,9 @@ func (k *Case) runE2E() (out string) {
 			out = "crash"
 		}
 	}()
+	if k.Kind == "sshhost" || k.Kind == "sshuser" {
+		return k.runE2ESSH()
+	}
 	pol := &authpolicy.X509PolicyOptions{AllowedNames: nameOpts(k.P), DeniedNames: nameOpts(k.X), AllowWildcardNames: k.Wild}
 	o := fixture.Opts{NoDB: true, From: e2eCA}
 	switch k.E2E {
@@ -77,6 +89,140 @@ func (k *Case) runE2E() (out string) {
 		fmt.Fprintln(os.Stderr, "other:", err)
 	}
 	return ""
+}
+
+func sshNameOpts(r Rules) *authpolicy.SSHNameOptions {
+	return &authpolicy.SSHNameOptions{DNSDomains: r.DNS, IPRanges: r.IP, EmailAddresses: r.Email, Principals: r.Prin}
+}
+
+// runE2ESSH: the rule set is the SSH host and user policy of the authority or of the JWK provisioner; the
+// principals are requested through token → Authorize(ssh-sign) → SignSSH.
+func (k *Case) runE2ESSH() string {
+	yes := true
+	o := fixture.Opts{NoDB: true, From: e2eSSHCA, SSH: true, JWKClaims: &provisioner.Claims{EnableSSHCA: &yes}}
+	host := &authpolicy.SSHHostCertificateOptions{AllowedNames: sshNameOpts(k.P), DeniedNames: sshNameOpts(k.X)}
+	user := &authpolicy.SSHUserCertificateOptions{AllowedNames: sshNameOpts(k.P), DeniedNames: sshNameOpts(k.X)}
+	switch k.E2E {
+	case "authority":
+		o.Config = func(cfg *config.Config) {
+			cfg.AuthorityConfig.Policy = &authpolicy.Options{SSH: &authpolicy.SSHPolicyOptions{Host: host, User: user}}
+		}
+	case "provisioner":
+		o.JWKOptions = &provisioner.Options{SSH: &provisioner.SSHOptions{Host: host, User: user}}
+	}
+	ca, err := fixture.New(o)
+	if err != nil {
+		return "badrule"
+	}
+	defer ca.Auth.Shutdown()
+	if e2eSSHCA == nil {
+		e2eSSHCA = ca
+	}
+	typ := "user"
+	if k.Kind == "sshhost" {
+		typ = "host"
+	}
+	tok, err := ca.Token(fixture.TokenOpts{Subject: "key-id", Audience: fixture.Audience("/1.0/ssh/sign"), NoSANs: true,
+		Extra: map[string]any{"step": map[string]any{"ssh": map[string]any{"certType": typ, "keyID": "key-id", "principals": k.SANs}}}})
+	if err != nil {
+		return ""
+	}
+	priv, err := ecdsa.GenerateKey(elliptic.P256(), rand.Reader)
+	if err != nil {
+		return ""
+	}
+	pub, err := ssh.NewPublicKey(&priv.PublicKey)
+	if err != nil {
+		return ""
+	}
+	ctx := provisioner.NewContextWithMethod(authority.NewContext(context.Background(), ca.Auth), provisioner.SSHSignMethod)
+	opts, err := ca.Auth.Authorize(ctx, tok)
+	if err == nil {
+		_, err = ca.Auth.SignSSH(ctx, pub, provisioner.SignSSHOptions{CertType: typ, KeyID: "key-id", Principals: k.SANs}, opts...)
+	}
+	if err == nil {
+		return "allow"
+	}
+	var sc interface{ StatusCode() int }
+	if errors.As(err, &sc) && sc.StatusCode() == http.StatusForbidden {
+		return "deny"
+	}
+	var pe *policy.NamePolicyError
+	if errors.As(err, &pe) {
+		return "deny"
+	}
+	if strings.Contains(err.Error(), "disabled due to an initialization error") {
+		return "badrule"
+	}
+	if os.Getenv("VERIF_C04_DEBUG") != "" {
+		fmt.Fprintln(os.Stderr, "other(ssh):", err)
+	}
+	return ""
+}
+
+// genE2ESSH: an SSH host or user certificate with well-formed principals under an SSH policy; a third of the
+// policies have rules of a single kind only (an IP-only or principal-only section must still be enforced)
+func genE2ESSH(r *c.Rng) *Case {
+	k := &Case{Kind: c.Pick(r, []string{"sshhost", "sshuser"}), E2E: c.Pick(r, []string{"authority", "provisioner"})}
+	dirty = false
+	var near []string
+	switch r.Intn(4) {
+	case 0:
+		k.X = genRules(r, &near)
+	case 1:
+		k.P = genRules(r, &near)
+	default:
+		k.P = genRules(r, &near)
+		k.X = genRules(r, &near)
+	}
+	only := func(rs *Rules, kind int) {
+		switch kind {
+		case 0:
+			*rs = Rules{IP: rs.IP}
+		case 1:
+			*rs = Rules{Prin: rs.Prin}
+		case 2:
+			*rs = Rules{DNS: rs.DNS}
+		case 3:
+			*rs = Rules{Email: rs.Email}
+		}
+	}
+	k.P.CN, k.P.URI, k.X.CN, k.X.URI = nil, nil, nil, nil
+	if r.Chance(1, 3) {
+		kind := r.Intn(4)
+		only(&k.P, kind)
+		if r.Chance(1, 2) {
+			kind = r.Intn(4)
+		}
+		only(&k.X, kind)
+	}
+	if r.Chance(1, 4) && len(k.P.IP)+len(k.X.IP) == 0 {
+		k.X.IP = []string{c.Pick(r, []string{"10.0.0.0/8", "192.168.0.0/16", "fd00::/8"})}
+	}
+	n := 1 + r.Intn(3)
+	for i := 0; i < n; i++ {
+		if k.Kind == "sshhost" {
+			if r.Chance(1, 2) {
+				k.SANs = append(k.SANs, c.Pick(r, ipsPool))
+			} else {
+				k.SANs = append(k.SANs, strings.TrimPrefix(nearNameClean(r, near), "*."))
+			}
+		} else {
+			switch r.Intn(3) {
+			case 0:
+				k.SANs = append(k.SANs, c.Pick(r, e2eLocals)+"@"+strings.TrimPrefix(nearNameClean(r, near), "*."))
+			case 1:
+				k.SANs = append(k.SANs, c.Pick(r, []string{"root", "alice", "Alice", "bob-1", "ops"}))
+			default:
+				if len(k.P.Prin)+len(k.X.Prin) > 0 {
+					k.SANs = append(k.SANs, strings.TrimSuffix(strings.TrimPrefix(c.Pick(r, append(append([]string{}, k.P.Prin...), k.X.Prin...)), "*"), "*")+"x")
+				} else {
+					k.SANs = append(k.SANs, "user"+fmt.Sprint(r.Intn(3)))
+				}
+			}
+		}
+	}
+	return k
 }
 
 var e2eLocals = []string{"a", "root", "first.last", "x+y"}
